@@ -355,10 +355,16 @@ def check_traj_split(ctx):
         # self[a : a + w] with a = start of a part and w = the smallest part width: inside [start, stop), all of one size
         lo_src = lo.pair_src if (lo is not None and lo.pair_pos == 0) else (lo.shift_item[1] if (lo is not None and lo.shift_item and lo.shift_item[0] == 0) else None)
         if not ok and lo_src is not None and hi is not None and hi.bin is not None and hi.bin[0] == '+' and sl.step is None:
-            a_, w_ = (hi.bin[1], hi.bin[2]) if hi.bin[3] == it.sx(_slice_lower(e['node'])) else ((hi.bin[2], hi.bin[1]) if hi.bin[4] == it.sx(_slice_lower(e['node'])) else (None, None))
+            def _startlike(v_):
+                return v_ is not None and ((v_.pair_pos == 0 and v_.pair_src == lo_src) or bool(v_.shift_item and v_.shift_item[0] == 0 and v_.shift_item[1] == lo_src))
+            a_, w_ = (hi.bin[1], hi.bin[2]) if _startlike(hi.bin[1]) else ((hi.bin[2], hi.bin[1]) if _startlike(hi.bin[2]) else (None, None))
             if w_ is not None and w_.minwidth is not None and w_.minwidth == lo_src:
                 ctx.ob('R4', e['where'], e['node'], True, 'each part starts at its edge and is as long as the smallest part: non-overlapping, equal sizes')
                 seq = lo.pair_seq
+                continue
+            if w_ is not None and w_.pair_width is None and not has_const(w_):
+                # start + <a length whose origin is not derivable>: neither the minimum width nor the width of one part
+                ctx.ob('R4', e['where'], e['node'], None, 'length of the parts cut as self[start : start + n] not derivable')
                 continue
         ctx.ob('R4', e['where'], e['node'], True if ok else (False if bad else None),
                'consecutive, non-overlapping frame ranges' if ok else 'frame ranges overlap / are not the consecutive pairs of the edge sequence')
